@@ -26,6 +26,9 @@ import (
 	"github.com/bluenviron/gortsplib/v5/pkg/format/rtpvp8"
 )
 
+// curMax: PayloadMaxSize of the encoder whose packets are being checked
+var curMax int
+
 type boundedC03 struct {
 	fails map[string]int
 	cases map[string]int
@@ -77,6 +80,17 @@ func feedUnits(r *boundedC03, family, input string, pkts []*rtp.Packet, decode f
 	if len(pkts) == 0 {
 		r.fail(family, input, "no packets produced")
 		return
+	}
+	// C06 on the same grid: payload size limit, consecutive sequence numbers
+	for i, p := range pkts {
+		if len(p.Payload) > curMax {
+			r.fail(family, input, fmt.Sprintf("packet %d of %d has a payload of %d bytes, PayloadMaxSize is %d", i, len(pkts), len(p.Payload), curMax))
+			return
+		}
+		if p.SequenceNumber != pkts[0].SequenceNumber+uint16(i) {
+			r.fail(family, input, fmt.Sprintf("packet %d of %d: sequence number %d after %d", i, len(pkts), p.SequenceNumber, pkts[0].SequenceNumber))
+			return
+		}
 	}
 	var got [][]byte
 	for i, p := range pkts {
@@ -159,6 +173,28 @@ func TestBoundedC03(t *testing.T) {
 	}
 
 	for _, m := range maxes {
+		curMax = m
+		// MPEG-4 audio, two access units whose aggregated size sweeps across the limit byte by byte
+		for _, cfg := range [][3]int{{13, 3, 3}, {13, 0, 0}, {6, 2, 2}, {13, 3, 11}, {13, 11, 3}} {
+			for _, a := range []int{1, 40} {
+				for b := m - a - 14; b <= m-a+2; b++ {
+					if b < 1 || b >= 1<<cfg[0] || a >= 1<<cfg[0] {
+						continue
+					}
+					aus := [][]byte{filler(a, 3), filler(b, 5)}
+					e := &rtpmpeg4audio.Encoder{PayloadType: 96, PayloadMaxSize: m, SizeLength: cfg[0], IndexLength: cfg[1], IndexDeltaLength: cfg[2]}
+					d := &rtpmpeg4audio.Decoder{SizeLength: cfg[0], IndexLength: cfg[1], IndexDeltaLength: cfg[2]}
+					if e.Init() != nil || d.Init() != nil {
+						continue
+					}
+					pkts, err := e.Encode(aus)
+					if err != nil {
+						continue
+					}
+					feedUnits(r, "MPEG4AudioAtLimit", fmt.Sprintf("max=%d sizes=[%d %d] cfg=%v", m, a, b, cfg), pkts, d.Decode, aus)
+				}
+			}
+		}
 		for li, sizes := range lists(m) {
 			in := fmt.Sprintf("max=%d sizes=%v", m, sizes)
 
